@@ -14,6 +14,10 @@ TRUSTED = ["object identity of nodes is represented by storage paths"]
 ASSUMPTIONS = ["trees are well formed (tokens 1..n, no childless constituent)"]
 
 
+HIST = ["root_attach", "punctuation_root", "punctuation_verylow", "punctuation_symetrify", "heads+boyd_split+raising",
+        "punctuation_delete"]
+
+
 def pathmap(root):
     m = {}
     for p in proto.all_paths(root):
@@ -84,4 +88,14 @@ def gen(seed, tier, scale):
         rng = case_rng(seed, ID, idx)
         tree = treegen.gen_tree(rng, cfg)
         yield idx, nav_case(tree, "random", {"tree": proto.pretty_tree(tree)})
+        idx += 1
+    # trees with a past: produced by a reader, navigated before, changed in place since
+    import history
+    for _ in range((500 if tier == "quick" else 10000) * scale):
+        rng = case_rng(seed, ID, idx)
+        tree = treegen.gen_tree(rng, treegen.Cfg(n_max=9, p_punct=0.3))
+        tree.data['sid'] = 1
+        before = proto.pretty_tree(tree)
+        tree, past = history.aged(rng, tree, allowed=HIST)
+        yield idx, nav_case(tree, "after-history", {"tree-before": before, "history": past, "tree": proto.pretty_tree(tree)})
         idx += 1
